@@ -327,19 +327,23 @@ Qed.
 Lemma holds_pgen_sound k :
   holds_pgen k = true ->
   geno_domb (pc_strict_half k) (pc_g k) = true -> chunk_dom (pc_cw k) -> chunk_dom (pc_cr k) ->
+  pc_wpre k = false -> pc_rpre k = false ->
   exists g', pc_back k = Ok g' /\ rt_rel (pc_g k) g'.
 Proof.
-  unfold holds_pgen. intros H Hd Hw Hr.
+  unfold holds_pgen. intros H Hd Hw Hr Hwp Hrp.
   rewrite Hd, (proj2 (chunk_domb_spec _) Hw), (proj2 (chunk_domb_spec _) Hr) in H. cbn in H.
+  unfold same_back, written in H. rewrite Hwp, Hrp in H.
   destruct (pc_back k) as [g'|]; [|discriminate].
   exists g'. split; [reflexivity|]. apply same_geno_spec. exact H.
 Qed.
 
 Lemma holds_vcf_sound k :
   holds_vcf k = true -> geno_domb true (vc_g k) = true ->
+  vc_wpre k = false -> vc_rpre k = false ->
   exists g', vc_back k = Ok g' /\ rt_rel (vc_g k) g'.
 Proof.
-  unfold holds_vcf. intros H Hd. rewrite Hd in H.
+  unfold holds_vcf. intros H Hd Hwp Hrp. rewrite Hd in H.
+  unfold same_back, written in H. rewrite Hwp, Hrp in H.
   destruct (vc_back k) as [g'|]; [|discriminate].
   exists g'. split; [reflexivity|]. apply same_geno_spec. exact H.
 Qed.
